@@ -235,4 +235,189 @@ Section ShapePres.
           split; [lia|]. apply Forall_insert_at; [|assumption].
           apply Forall_app. split; [assumption|]. constructor; assumption.
   Qed.
+
+  (* ---------------- Delete ---------------- *)
+
+  Lemma rotl_ok d (c r : node) (s : K * V) :
+    shaped d c -> okc d r -> minKVs < nkeys r -> nkeys c < minKVs -> minKVs <= S (nkeys c) ->
+    okc d (rotl_child c r s) /\ okc d (rotl_sib r).
+  Proof.
+    destruct c as [ci ck cc], r as [ri rk rc]. unfold rotl_child, rotl_sib, ProofsWf.okc. nk.
+    intros Hc [Hrm Hr] Hlt Hc1 Hc2.
+    assert (Lk : length (ck ++ [s]) = S (length ck)) by apply length_snoc.
+    assert (Lr : length (skipn 1 rk) = length rk - 1) by apply skipn_length.
+    destruct d as [|d].
+    - apply shaped_0_inv in Hc. apply shaped_0_inv in Hr.
+      destruct Hc as [Hcl ->], Hr as [Hrl ->]. rewrite firstn_nil, skipn_nil. cbn [app].
+      split; (split; [lia|]); apply shaped_0; split; auto; lia.
+    - apply shaped_S_inv in Hc. apply shaped_S_inv in Hr.
+      destruct Hc as (Hcl & Hcc & Fc), Hr as (Hrl & Hrc & Fr).
+      destruct rc as [|r0 rc]; [discriminate|].
+      change (firstn 1 (r0 :: rc)) with [r0]. change (skipn 1 (r0 :: rc)) with rc.
+      cbn [length] in Hrc.
+      inversion Fr as [|? ? Fr0 Fr']; subst.
+      split; (split; [lia|]); apply shaped_S; repeat split; try lia.
+      + rewrite length_snoc. lia.
+      + apply Forall_app. split; [assumption|]. constructor; [assumption|constructor].
+      + assumption.
+  Qed.
+
+  Lemma rotr_ok d (l c : node) (s : K * V) :
+    okc d l -> shaped d c -> minKVs < nkeys l -> nkeys c < minKVs -> minKVs <= S (nkeys c) ->
+    okc d (rotr_sib l) /\ okc d (rotr_child l c s).
+  Proof.
+    destruct c as [ci ck cc], l as [li lk lc]. unfold rotr_child, rotr_sib, ProofsWf.okc. nk.
+    intros [Hlm Hl] Hc Hlt Hc1 Hc2.
+    assert (Lk : length (firstn (pred (length lk)) lk) = pred (length lk))
+      by (apply len_firstn_le; lia).
+    assert (Ls : length (s :: ck) = S (length ck)) by reflexivity.
+    destruct d as [|d].
+    - apply shaped_0_inv in Hc. apply shaped_0_inv in Hl.
+      destruct Hc as [Hcl ->], Hl as [Hll ->]. rewrite firstn_nil, skipn_nil. cbn [app].
+      split; (split; [lia|]); apply shaped_0; split; auto; lia.
+    - apply shaped_S_inv in Hc. apply shaped_S_inv in Hl.
+      destruct Hc as (Hcl & Hcc & Fc), Hl as (Hll & Hlc & Fl).
+      split; (split; [lia|]); apply shaped_S; repeat split; try lia.
+      + rewrite firstn_length. lia.
+      + apply Forall_firstn; assumption.
+      + rewrite app_length, skipn_length. lia.
+      + apply Forall_app. split; [apply Forall_skipn|]; assumption.
+  Qed.
+
+  Lemma merged_ok d (a b : node) (s : K * V) :
+    shaped d a -> shaped d b -> nkeys a + nkeys b < 2 * minKVs -> minKVs <= S (nkeys a + nkeys b) ->
+    okc d (merged a b s).
+  Proof.
+    destruct a as [ai ak ac], b as [bi bk bc]. unfold merged, ProofsWf.okc. nk.
+    intros Ha Hb Hlt Hge.
+    assert (Lk : length (ak ++ s :: bk) = S (length ak + length bk))
+      by (rewrite app_length; cbn [length]; lia).
+    destruct d as [|d].
+    - apply shaped_0_inv in Ha. apply shaped_0_inv in Hb.
+      destruct Ha as [Hal ->], Hb as [Hbl ->]. cbn [app].
+      split; [lia|]. apply shaped_0. split; auto; lia.
+    - apply shaped_S_inv in Ha. apply shaped_S_inv in Hb.
+      destruct Ha as (Hal & Hac & Fa), Hb as (Hbl & Hbc & Fb).
+      split; [lia|]. apply shaped_S. repeat split; try lia.
+      + rewrite app_length. lia.
+      + apply Forall_app. split; assumption.
+  Qed.
+
+  Lemma fix_shaped d id (kvs : list (K * V)) (A : list node) (c : node) (B : list node) :
+    length kvs <= maxKVs -> 1 <= length kvs -> length (A ++ c :: B) = S (length kvs) ->
+    Forall (okc d) A -> Forall (okc d) B -> shaped d c -> minKVs <= S (nkeys c) ->
+    shaped (S d) (fix_child id kvs (A ++ c :: B) (length A)) /\
+    length kvs <= S (nkeys (fix_child id kvs (A ++ c :: B) (length A))).
+  Proof.
+    intros Hlen Hne Hl FA FB Hc Hcm.
+    pose proof (fix_spec_holds kzero vzero minKVs id kvs A c B Hl Hne) as HS.
+    remember (fix_child id kvs (A ++ c :: B) (length A)) as x' eqn:Ex. clear Ex.
+    destruct HS as [Hok
+                   |KA s KB r B' Hk HB HlK Hlt Hr
+                   |KA s KB A' l Hk HA HlK Hlt Hll
+                   |KA s KB A' l Hk HA HlK Hlt Hll
+                   |s KB r B' Hk HA HB Hlt Hr].
+    - nk. split; [|lia]. apply shaped_S. repeat split; auto.
+      apply Forall_app. split; [assumption|]. constructor; [|assumption]. split; [nk; lia|assumption].
+    - subst kvs B. inversion FB as [|? ? Fr FB']; subst.
+      destruct (rotl_ok d c r s Hc Fr Hr Hlt Hcm) as [O1 O2].
+      rewrite !app_length in *. cbn [length] in *.
+      nk. rewrite !app_length. cbn [length]. split; [|lia].
+      apply shaped_S. rewrite !app_length. cbn [length]. repeat split; try lia.
+      apply Forall_app. split; [assumption|]. constructor; [assumption|]. constructor; assumption.
+    - subst kvs A. apply Forall_app in FA. destruct FA as [FA' Fl].
+      inversion Fl as [|? ? Fl0 _]; subst.
+      destruct (rotr_ok d l c s Fl0 Hc Hll Hlt Hcm) as [O1 O2].
+      rewrite !app_length in *. cbn [length] in *.
+      nk. rewrite !app_length. cbn [length]. split; [|lia].
+      apply shaped_S. rewrite !app_length. cbn [length]. repeat split; try lia.
+      apply Forall_app. split; [assumption|]. constructor; [assumption|]. constructor; assumption.
+    - subst kvs A. apply Forall_app in FA. destruct FA as [FA' Fl].
+      inversion Fl as [|? ? [Fl0 Fl1] _]; subst.
+      assert (O : okc d (merged l c s)) by (apply merged_ok; auto; lia).
+      rewrite !app_length in *. cbn [length] in *.
+      nk. rewrite !app_length. split; [|lia].
+      apply shaped_S. rewrite !app_length. cbn [length]. repeat split; try lia.
+      apply Forall_app. split; [assumption|]. constructor; assumption.
+    - subst kvs A B. inversion FB as [|? ? [Fr0 Fr1] FB']; subst.
+      assert (O : okc d (merged c r s)) by (apply merged_ok; auto; lia).
+      cbn [app length] in *.
+      nk. split; [|lia].
+      apply shaped_S. cbn [length]. repeat split; try lia.
+      constructor; assumption.
+  Qed.
+
+  Definition rr_shape (d : nat) (x : node) (r : node * (K * V)) : Prop :=
+    shaped d (fst r) /\ nkeys x <= S (nkeys (fst r)).
+
+  Theorem rr_shaped d : forall x, shaped d x -> 1 <= nkeys x -> rr_shape d x (remove_rightmost x).
+  Proof.
+    induction d as [|d IH]; intros [id kvs cs] Hs Hne; unfold rr_shape.
+    - apply shaped_0_inv in Hs. destruct Hs as [Hlen ->]. rewrite rr_leaf_unfold. cbn [fst]. nk.
+      assert (Hk : kvs <> []) by (destruct kvs; [simpl in Hne; lia|discriminate]).
+      pose proof (length_removelast kvs Hk) as Hr.
+      split; [|lia]. apply shaped_0. split; [lia|reflexivity].
+    - apply shaped_S_inv in Hs. destruct Hs as (Hlen & Hlc & F).
+      destruct (rev_case cs) as [->|(A & c & ->)]; [discriminate|].
+      rewrite length_snoc in Hlc. apply Forall_app in F. destruct F as [FA Fc].
+      inversion Fc as [|? ? [Hcm Hcs] _]; subst.
+      pose proof (IH c Hcs ltac:(lia)) as Hc. unfold rr_shape in Hc.
+      destruct (remove_rightmost c) as [c' kv] eqn:Er. cbn [fst] in Hc. destruct Hc as [Hc1 Hc2].
+      rewrite (rr_internal kzero vzero minKVs id kvs A c c' kv ltac:(lia) Er). cbn [fst].
+      nk. apply fix_shaped; auto.
+      + rewrite length_snoc. lia.
+      + nk. lia.
+  Qed.
+
+  Definition del_shape (d : nat) (x : node) (r : node * bool) : Prop :=
+    shaped d (fst r) /\ nkeys x <= S (nkeys (fst r)).
+
+  Theorem del_shaped d : forall x k,
+      shaped d x -> (d <> 0 -> 1 <= nkeys x) -> del_shape d x (del x k).
+  Proof.
+    induction d as [|d IH]; intros [id kvs cs] k Hs Hne; unfold del_shape.
+    - pose proof Hs as Hs0. apply shaped_0_inv in Hs. destruct Hs as [Hlen ->].
+      pose proof (del_spec_holds cmp kzero vzero minKVs id kvs [] k (or_introl eq_refl)) as HS.
+      remember (del (Node id kvs []) k) as res eqn:Eres. clear Eres.
+      destruct HS as [KA k' v' KB Hc Hk Hg He
+                     |KA KB Hc Hk Hg Hl
+                     |KA k' v' KB A c B c' kv Hk Hc
+                     |KA KB A c B c' Hk Hc
+                     |KA KB A c B c' Hk Hc];
+        try (destruct A; discriminate); cbn [fst].
+      + subst kvs. nk. rewrite !app_length in *. cbn [length] in *.
+        split; [|lia]. apply shaped_0. rewrite app_length. split; [lia|reflexivity].
+      + split; [assumption|lia].
+    - pose proof Hs as Hs0. pose proof (shaped_cs _ _ _ _ _ _ Hs) as Hcs.
+      apply shaped_S_inv in Hs. destruct Hs as (Hlen & Hlc & F).
+      specialize (Hne ltac:(lia)). nk.
+      pose proof (del_spec_holds cmp kzero vzero minKVs id kvs cs k Hcs) as HS.
+      remember (del (Node id kvs cs) k) as res eqn:Eres. clear Eres.
+      destruct HS as [KA k' v' KB Hc Hk Hg He
+                     |KA KB Hc Hk Hg Hl
+                     |KA k' v' KB A c B c' kv Hk Hc HlA HlB Hg He Hr
+                     |KA KB A c B c' Hk Hc HlA HlB Hg Hl Hd
+                     |KA KB A c B c' Hk Hc HlA HlB Hg Hl Hd];
+        try (subst cs; discriminate); cbn [fst].
+      + (* found in this node: pull up the predecessor *)
+        subst cs. apply Forall_app in F. destruct F as [FA F].
+        inversion F as [|? ? [Hcm Hcs'] FB]; subst.
+        pose proof (rr_shaped d c Hcs' ltac:(lia)) as Hc'. unfold rr_shape in Hc'.
+        rewrite Hr in Hc'. cbn [fst] in Hc'. destruct Hc' as [Hc1 Hc2].
+        assert (Hlk : length (KA ++ kv :: KB) = length (KA ++ (k', v') :: KB))
+          by (rewrite !app_length; reflexivity).
+        rewrite <- Hlk in *.
+        apply fix_shaped; auto.
+        * rewrite !app_length in *. cbn [length] in *. lia.
+        * lia.
+      + subst cs. apply Forall_app in F. destruct F as [FA F].
+        inversion F as [|? ? [Hcm Hcs'] FB]; subst.
+        pose proof (IH c k Hcs' ltac:(intros _; nk; lia)) as Hc'. unfold del_shape in Hc'.
+        rewrite Hd in Hc'. cbn [fst] in Hc'. destruct Hc' as [Hc1 Hc2].
+        apply fix_shaped; auto.
+        * rewrite !app_length in *. cbn [length] in *. lia.
+        * lia.
+      + split; [assumption|nk; lia].
+  Qed.
+
 End ShapePres.
